@@ -10,7 +10,7 @@
 //  * psHkdfExpandLabel: label 1..249 bytes, context 0..255, total HkdfLabel <= 80 bytes (all in-tree labels are <= 70);
 //  * psPkcs5Pbkdf2: rounds >= 1, kLen >= 1, non-NULL pointers.  Password length: the in-tree caller passes an unbounded
 //    user password; the main target keeps pLen <= 64, the separate target c12_pbkdf2_longpw covers 0..129 (finding
-//    pbkdf2-long-password, see findings/).
+//    pbkdf2-long-password, see findings/; a wrong result for pLen > 64 has signature pbkdf2-mismatch:pw>64).
 // Non-trivial: key/salt/L/dkLen within +-1 of a block/hash-length boundary, long-key path, >= 2 update calls, misaligned
 // buffers, context reuse.  Distinct by (function, alg, key class, length class, split shape, offsets).
 #include "c12_common.h"
@@ -259,7 +259,7 @@ void pbkdf2_case(Tape &t, Ctx &c) {
     C12_ORACLE_OK(c, o_pbkdf2_sha1(pw.p, plen, salt.p, slen, rounds, want.data(), dk));
     XBuf key(dk, ko, CANARY);
     psPkcs5Pbkdf2(pw.p, (uint32) plen, salt.p, (uint32) slen, rounds, key.p, (uint32) dk);
-    VF_CHECK(memcmp(key.p, want.data(), dk) == 0, plen > 64 ? "pbkdf2-long-password" : "pbkdf2-mismatch", "psPkcs5Pbkdf2 pLen=%zu sLen=%zu rounds=%d kLen=%zu: got %s want %s", plen, slen, rounds, dk,
+    VF_CHECK(memcmp(key.p, want.data(), dk) == 0, plen > 64 ? "pbkdf2-mismatch:pw>64" : "pbkdf2-mismatch", "psPkcs5Pbkdf2 pLen=%zu sLen=%zu rounds=%d kLen=%zu: got %s want %s", plen, slen, rounds, dk,
              hex(key.p, dk, 40).c_str(), hex(want.data(), dk, 40).c_str());
     c.count("pbkdf2"); c.count(rounds <= 4 ? "pbkdf2-rounds:1-4" : rounds <= 64 ? "pbkdf2-rounds:5-64" : "pbkdf2-rounds:65-2000");
     c.count(dk % 20 == 0 ? "pbkdf2-dk:k*20" : dk % 20 == 1 ? "pbkdf2-dk:k*20+1" : dk % 20 == 19 ? "pbkdf2-dk:k*20-1" : "pbkdf2-dk:other");
